@@ -99,6 +99,42 @@ var replayLine = regexp.MustCompile(`^VERIF-REPLAY (\d+) outcome=(\S+) log=(.*) 
 
 // NativeReplay runs the given tapes (all of one package) against the real build with `go test -overlay`.
 func (e *Engine) NativeReplay(pkgName, pkgRel string, tapePaths []string, workDir string) ([]ReplayOutcome, string, error) {
+	res, raw, err := e.nativeReplayOnce(pkgName, pkgRel, tapePaths, workDir)
+	if err == nil || len(tapePaths) == 1 {
+		if err != nil && len(res) == 1 && strings.HasPrefix(res[0].Outcome, "error:no-output") {
+			if l := crashLine(raw); l != "" {
+				res[0].Outcome = "panic:test-process-crashed:" + l
+			}
+		}
+		return res, raw, err
+	}
+	// the test binary died (e.g. a panic in a goroutine of the code under test): re-run the tapes without output one by one
+	for i := range res {
+		if !strings.HasPrefix(res[i].Outcome, "error:no-output") {
+			continue
+		}
+		r1, raw1, err1 := e.nativeReplayOnce(pkgName, pkgRel, []string{tapePaths[i]}, workDir)
+		res[i] = r1[0]
+		if err1 != nil && strings.HasPrefix(r1[0].Outcome, "error:no-output") {
+			if l := crashLine(raw1); l != "" {
+				res[i].Outcome = "panic:test-process-crashed:" + l
+			}
+		}
+	}
+	return res, raw, nil
+}
+
+func crashLine(raw string) string {
+	for _, l := range strings.Split(raw, "\n") {
+		t := strings.TrimSpace(l)
+		if strings.HasPrefix(t, "panic:") || strings.HasPrefix(t, "fatal error:") {
+			return strings.ReplaceAll(t, " ", "_")
+		}
+	}
+	return ""
+}
+
+func (e *Engine) nativeReplayOnce(pkgName, pkgRel string, tapePaths []string, workDir string) ([]ReplayOutcome, string, error) {
 	if err := os.MkdirAll(workDir, 0o755); err != nil {
 		return nil, "", err
 	}
